@@ -398,6 +398,17 @@ def check_sig_eq(f, prog, eqc, nx):
     return True, "arm %s: Hmac<%s>(secret) over part1 '.' part2 == base64url(part3), whole-slice eq" % (variant, DIGEST[variant][3:])
 
 
+def unsigned_token_ok(f, op, before_bb):
+    """is the MAC input `base64url(header_str()) . base64url(to_vec(payload))`, however the string was put together?"""
+    from .lib import strbuild
+    ps = strbuild.merged(strbuild.pieces(f, op, before_bb))
+    shape = [(p_[0], p_[1] if p_[0] == "lit" else (p_[2].name if len(p_) > 2 and p_[2] is not None else "?")) for p_ in ps]
+    ok = len(ps) == 3 and ps[1] == ("lit", ".") and all(p_[0] == "val" and len(p_) > 2 and p_[2] is not None and p_[2].name == "base64_url_encode" for p_ in (ps[0], ps[2]))
+    if ok:
+        ok = "header_str(" in decision.describe_deep(f, ps[0][2].args[0], 4) and "to_vec(" in decision.describe_deep(f, ps[2][2].args[0], 5)
+    return ok, shape
+
+
 def c12b(ck, prog):
     R = "C12-b SIBLING algorithm arms"
     alg = decision.variant_const_map(prog.method(r"jwt::JWT<Payload>$", "alg_str"), prog)
@@ -438,6 +449,8 @@ def c12b(ck, prog):
             ext = [c for c in f.calls_to(r"String::(push|push_str)$") if paths.root_call(f, c.args[0]) is not None and start is not None and paths.root_call(f, c.args[0]).bb == start.bb and f.dominates(c.bb, hc.bb)]
             exts = [(c.name, decision.describe_deep(f, c.args[1], 4)) for c in ext]
             ok = ok and len(ext) == 2 and exts[0] == ("push", "const '.'") and exts[1][0] == "push_str" and "base64_url_encode(" in exts[1][1] and "to_vec(" in exts[1][1]
+        if not ok and ch is not None and len(ch) == 1:
+            ok, exts = unsigned_token_ok(f, ch[0], hc.bb)
         ck.ob(R, "issue:signed-bytes", ok, f.loc(hc.sp), "" if ok else "issue() MACs %s, expected b64(header_str) + '.' + b64(to_vec(payload)) once" % (exts,), how="helper([b64(header) . b64(payload)])")
     else:
         ck.floor(R, "issue arms", len(macs), 3)
@@ -462,6 +475,8 @@ def c12b(ck, prog):
             ext = [c for c in f.calls_to(r"String::(push|push_str)$") if paths.root_call(f, c.args[0]) is not None and start is not None and paths.root_call(f, c.args[0]).bb == start.bb and f.dominates(c.bb, mac.bb)]
             exts = [(c.name, decision.describe_deep(f, c.args[1], 4)) for c in ext]
             ok = ok and len(ext) == 2 and exts[0] == ("push", "const '.'") and exts[1][0] == "push_str" and "base64_url_encode(" in exts[1][1] and "to_vec(" in exts[1][1]
+            if not ok:
+                ok, exts = unsigned_token_ok(f, ups[0].args[1], mac.bb)
             srcs = [srcs, exts]
         ck.ob(R, "issue:%s:signed-bytes" % variant, ok, f.loc(mac.sp), "" if ok else "issue() arm %s MACs %s, expected b64(header_str) + '.' + b64(to_vec(payload)) once" % (variant, srcs), how="update(b64(header) . b64(payload))")
     ok = seen == set(variants)
@@ -473,7 +488,15 @@ def c12b(ck, prog):
     ck.ob(R, "issue:unsigned-token", ok, f.loc(None), "" if ok else "issue() base64url-encodes %s, expected header_str() and to_vec(payload)" % srcs, how="; ".join(s[:40] for s in srcs))
     pushes = [f.const_args(c)[1] for c in f.calls_to(r"String::push$")]
     ok = len(pushes) == 2 and all(p and p.get("ch") == "." for p in pushes)
-    ck.ob(R, "issue:separators", ok, f.loc(None), "" if ok else "issue() joins the parts with %s, expected '.' twice" % pushes, how="push('.') x2")
+    if not ok:
+        # whatever builds the token text: three values with a `.` between them
+        from .lib import strbuild
+        toks = [st["r"] for bi in sorted(f.live_blocks()) for st in f.blocks[bi]["st"] if st["k"] == "=" and st["r"][0] == "agg" and st["r"][1].get("adt", "").endswith("JWTToken")]
+        if len(toks) == 1 and toks[0][2]:
+            ps = strbuild.merged(strbuild.pieces(f, toks[0][2][0]))
+            ok = [p_[0] if p_[0] == "val" else p_[1] for p_ in ps] == ["val", ".", "val", ".", "val"]
+            pushes = [(p_[1] if p_[0] == "lit" else "<value>") for p_ in ps]
+    ck.ob(R, "issue:separators", ok, f.loc(None), "" if ok else "issue() joins the parts with %s, expected '.' twice" % pushes, how="header . payload . signature")
     # base64url helpers use URL_SAFE_NO_PAD on both sides
     for nm in ("base64_url_encode", "base64_url_decode"):
         g = prog.one(r"^ohkami::util::%s$" % nm)
